@@ -627,3 +627,14 @@ v("c20-oneof-default-test-coerces", "C20", "SCHEMA-VALIDATION-TOTAL", T + "valid
   "        if field.default is not None or field.default_value is not Undefined:\n", "        if coerce_default_value(field) is not Undefined:\n",
   extra_edits=[{"file": T + "validate.py", "old": "from ..utilities.type_comparators import is_equal_type, is_type_sub_type_of\n",
                 "new": "from ..utilities.coerce_input_value import coerce_default_value\nfrom ..utilities.type_comparators import is_equal_type, is_type_sub_type_of\n"}])
+
+# -- round 4: C18 ------------------------------------------------------------------------------------------
+v("c18-directive-arg-types-by-identity", "C18", "CROSS-SCHEMA-BY-NAME", U + "find_schema_changes.py",
+  "            elif str(old_arg.type) != str(new_arg.type):\n                schema_changes.append(\n                    SafeChange(\n                        SafeChangeType.ARG_CHANGED_KIND_SAFE,",
+  "            elif old_arg.type != new_arg.type:\n                schema_changes.append(\n                    SafeChange(\n                        SafeChangeType.ARG_CHANGED_KIND_SAFE,")
+v("c18-directive-arg-types-by-text-local", "C18", "CROSS-SCHEMA-BY-NAME", U + "find_schema_changes.py",
+  "            elif str(old_arg.type) != str(new_arg.type):\n                schema_changes.append(\n                    SafeChange(\n                        SafeChangeType.ARG_CHANGED_KIND_SAFE,",
+  "            elif f\"{old_arg.type}\" != f\"{new_arg.type}\":\n                schema_changes.append(\n                    SafeChange(\n                        SafeChangeType.ARG_CHANGED_KIND_SAFE,",
+  expect="silent")
+v("c18-introspection-default-sorted", "C18", "DEFAULT-VERBATIM", T + "introspection.py",
+  "        if ast:\n            return print_ast(ast)\n", "        if ast:\n            from ..utilities.sort_value_node import sort_value_node\n\n            return print_ast(sort_value_node(ast))\n")
